@@ -29,6 +29,11 @@ PROPS = {
         "assumptions": ["ledger trace contract E1-E3 and NoStale (E4); every committed delivery completely written; "
                         "every delivery without a seen was superseded by a later key of its transaction"],
     },
+    "C06": {
+        "modules": ["PgBifrost.Props.C06"],
+        "components": ["partitioner", "crc", "batcher"],
+        "assumptions": ["identifiers are byte strings; bucket count >= 1 (validated by main.go)"],
+    },
     "C08": {
         "modules": ["PgBifrost.Props.C08"],
         "components": ["filter", "clifilter"],
